@@ -46,6 +46,26 @@ Theorem comp_residual_is_gas_law :
 Proof. exact C02.Proofs.comp_lemma. Qed.
 Print Assumptions comp_residual_is_gas_law.
 
+(* gas residual against the declared direction (m <= 0): the same integrated law from node i+1 to node i *)
+Theorem comp_residual_is_gas_law_reverse :
+  forall nb : bool,
+  forall bp_AREA bp_D bp_LENGTH bp_LOSS_COEFFICIENT bp_MDOTINIT bp_PL bp_TOUTINIT comp_fact der_comp der_comp1 der_lambda
+         height_difference lambda_ np_from_TINIT p_init_i1_abs p_init_i_abs rho rho_n : R,
+  bp_AREA <> 0 -> bp_D <> 0 -> rho_n <> 0 -> p_init_i_abs + p_init_i1_abs <> 0 -> bp_MDOTINIT <= 0 ->
+  let lv := if nb then hyd_comp_nb_load_vec bp_AREA bp_D bp_LENGTH bp_LOSS_COEFFICIENT bp_MDOTINIT bp_PL bp_TOUTINIT comp_fact
+                         der_comp der_comp1 der_lambda height_difference lambda_ np_from_TINIT p_init_i1_abs p_init_i_abs rho rho_n
+            else hyd_comp_np_load_vec bp_AREA bp_D bp_LENGTH bp_LOSS_COEFFICIENT bp_MDOTINIT bp_PL bp_TOUTINIT comp_fact
+                         der_comp der_comp1 der_lambda height_difference lambda_ np_from_TINIT p_init_i1_abs p_init_i_abs rho rho_n in
+  let vN := bp_MDOTINIT / (rho_n * bp_AREA) in
+  let Tm := (np_from_TINIT + bp_TOUTINIT) / 2 in
+  let Pi := p_init_i_abs * bar in let Pi1 := p_init_i1_abs * bar in
+  - lv * bar * ((Pi + Pi1) / 2) =
+    (Pi1 ^ 2 - Pi ^ 2) / 2 - (bp_PL * bar + rho * g_doc * height_difference) * ((Pi + Pi1) / 2)
+    - (doc_gas_coeff lambda_ rho_n vN bp_D Tm comp_fact * bp_LENGTH
+       + bp_LOSS_COEFFICIENT * (rho_n * vN ^ 2 / 2) * pN_pa * (Tm / TN_k) * comp_fact).
+Proof. exact C02.Proofs.comp_lemma_rev. Qed.
+Print Assumptions comp_residual_is_gas_law_reverse.
+
 (* mean pressure = 2/3 (p_i + p_{i+1} - p_i p_{i+1}/(p_i + p_{i+1})), the mean of a profile with linear p^2 *)
 Theorem pm_is_quadratic_mean : forall p_init_i1_abs p_init_i_abs : R,
   p_init_i_abs <> p_init_i1_abs -> p_init_i_abs + p_init_i1_abs <> 0 ->
